@@ -86,6 +86,18 @@ def _level():
         return n if isinstance(n, int) else -2
 
 
+def _console_level():
+    """Levels of the CONSOLE handler(s) of the 'emd' logger read straight from `logging` (the handler named 'console'), not
+    through emd.logger.get_level(); [get_level()] when no handler carries that name. Used in histories that log to a file as
+    well: there the logger has two handlers and "the console level" must not be taken from whichever handler get_level()
+    happens to pick (seeded change C20 r5/1: handlers selected by type, a RotatingFileHandler is a StreamHandler)."""
+    import logging
+    hs = [h for h in logging.getLogger('emd').handlers if h.get_name() == 'console']
+    if not hs:
+        return [_level()]
+    return [int(h.level) if isinstance(h.level, int) else -2 for h in hs]
+
+
 class Probe(np.ndarray):
     """The harness-owned signal array. Every numpy ufunc applied to it (or to a view / copy of it) INSIDE the decorated call,
     in the observing process, (a) samples the console level in force at that moment - this is how "the override is in force
@@ -197,11 +209,14 @@ def _exec(tok, env):
 
 def observe(tok, env):
     """Execute one operation in THIS process; return
-    [level after, error kind, output digest, info text shown, debug text shown, console levels sampled inside the call]."""
+    [level after, error kind, output digest, info text shown, debug text shown, console levels sampled inside the call]
+    + [[console handler level(s) directly before the call, directly after]] for a decorated call in a history that logs to a file."""
     from common.framework import err_kind
     buf = env['out']
     mark = len(buf.getvalue())
     err, dig = None, None
+    direct = bool(env.get('direct')) and is_call(tok)
+    cbefore = _console_level() if direct else None
     _PROBE.update(on=is_call(tok), pid=os.getpid(), levels=set(), **{'raise': None})
     try:
         r = _exec(tok, env)
@@ -215,8 +230,10 @@ def observe(tok, env):
     finally:
         _PROBE['on'] = False
         _PROBE['raise'] = None
+    cafter = _console_level() if direct else None
     text = buf.getvalue()[mark:]
-    return [_level(), err, dig, int('STARTED: ' in text), int('Input data size' in text), sorted(_PROBE['levels'])]
+    rec = [_level(), err, dig, int('STARTED: ' in text), int('Input data size' in text), sorted(_PROBE['levels'])]
+    return rec + [[cbefore, cafter]] if direct else rec
 
 
 def _explore(depth, alphabet, env):
@@ -283,7 +300,8 @@ def _in_child(fn, budget=CHILD_BUDGET_S):
 
 def _history_root(start, prefix, depth, alphabet, sig, tmp):
     """Body of the fresh child: redirect the console, reach the start state, run the prefix, explore."""
-    env = {'out': io.StringIO(), 'errout': io.StringIO(), 'sig': sig, 'tmp': tmp}
+    # histories whose set-up includes a log file: the console handler's own level is observed around every decorated call
+    env = {'out': io.StringIO(), 'errout': io.StringIO(), 'sig': sig, 'tmp': tmp, 'direct': bool(tmp)}
     sys.stdout = env['out']          # the console handler created by set_up binds to this object
     sys.stderr = env['errout']
     import emd
